@@ -5,7 +5,10 @@ using namespace vf;
 
 static Verdict runCase(const EncCase& c, Info& info)
 {
-    std::vector<lib::Packet> batch = buildBatch(c);
+    lib::Encoder enc;
+    enc.setDeviceId(c.dev);
+    enc.setStreamId(c.stream);
+    std::vector<lib::Packet> batch = priorCallsThenBatch(enc, c);
     std::vector<Snap> src;
     std::vector<size_t> lengths;
     for (const auto& p : batch)
@@ -15,10 +18,6 @@ static Verdict runCase(const EncCase& c, Info& info)
         VF_CHECK(src.back().valid && !src.back().payload.empty(), "generator produced an invalid/empty source packet");
     }
 
-    lib::Encoder enc;
-    enc.setDeviceId(c.dev);
-    enc.setStreamId(c.stream);
-    runPriorCalls(enc, c);
     auto frames = encodeVia(enc, batch, lib::DataContext{c.minB, c.maxB}, c.overload);
 
     lib::Decoder dec;
